@@ -115,6 +115,9 @@ func GenGroups(r *core.Rng, job string) []TG {
 			if r.Intn(10) == 0 {
 				ls["job"] = "job-from-sd" // discovery may override the job label; routing must still use the job name
 			}
+			if r.Intn(6) == 0 {
+				ls["__tmp_zone"] = r.PickS("a", "b") // a reserved label that is part of neither the public labels nor the URL
+			}
 			if r.Intn(12) == 0 {
 				ls["empty_value"] = ""
 			}
@@ -133,6 +136,14 @@ func GenGroups(r *core.Rng, job string) []TG {
 				}
 			}
 			tg.Targets = append(tg.Targets, ls)
+			if r.Intn(8) == 0 { // the same target again, differing in a reserved non-URL label only
+				tw := map[string]string{}
+				for k, v := range ls {
+					tw[k] = v
+				}
+				tw["__tmp_twin"] = "2"
+				tg.Targets = append(tg.Targets, tw)
+			}
 			if r.Intn(6) == 0 { // exact duplicate inside the group
 				dup := map[string]string{}
 				for k, v := range ls {
